@@ -216,6 +216,8 @@ func violationKey(r *Rec, clause, name string) string {
 				cyc := strings.Trim(field("cycle"), "{}")
 				sig = what + "/" + strings.SplitN(cyc, ",", 2)[0]
 			}
+		case "noresult":
+			sig = callClass(r.Call)
 		case "panic":
 			// "pkg.func: message"
 			parts := strings.SplitN(detail, ": ", 2)
